@@ -44,6 +44,120 @@ def gen_value(rng):
     return {"t": "int", "b": [1 if neg else 0, mag]}, (-mag if neg else mag)
 
 
+def request_pipeline(r, rng, tables, sig, thorough):
+    """The real request objects end to end (code / register / exists requests built from a profile, sent through a stubbed HTTPS connection,
+    the server key replaced by a key pair of the harness): what reaches the connection decrypts to the request's own parameter list, every
+    value decodable with standard percent-decoding, in the original order, with the token of the national number, under a fresh key."""
+    from harness import e2ekit
+    import yowsup.common.http.warequest as wr
+    from yowsup.registration.coderequest import WACodeRequest
+    from yowsup.registration.regrequest import WARegRequest
+    from yowsup.registration.existsrequest import WAExistsRequest
+    from yowsup.config.v1.config import Config
+    from yowsup.profile.profile import YowProfile
+    from cryptography.hazmat.primitives.asymmetric.x25519 import X25519PrivateKey, X25519PublicKey
+    from cryptography.hazmat.primitives.ciphers.aead import AESGCM
+    from cryptography.hazmat.primitives import serialization
+    from axolotl.ecc.curve import Curve
+    roots = e2ekit.Roots()
+    e2ekit.small_batches(3, 1)
+    priv = X25519PrivateKey.generate()
+    pub = priv.public_key().public_bytes(serialization.Encoding.Raw, serialization.PublicFormat.Raw)
+    sent = []
+
+    class Resp(object):
+        status = 200
+
+        def read(self):
+            return b'{"status": "sent", "length": 6, "method": "sms", "retry_after": 64}'
+
+    class Conn(object):
+        def __init__(self, host, port=None, *a, **kw):
+            self.host = host
+
+        def request(self, method, path, body=None, headers=None):
+            sent.append((self.host, method, path, body, headers))
+
+        def getresponse(self):
+            return Resp()
+    saved = (wr.WARequest.ENC_PUBKEY, wr.httplib.HTTPSConnection, wr.httplib.HTTPConnection)
+    wr.WARequest.ENC_PUBKEY = Curve.decodePoint(bytearray(b"\x05" + pub), 0)
+    wr.httplib.HTTPSConnection = wr.httplib.HTTPConnection = Conn
+    ephs = []
+    try:
+        n = 40 if thorough else 10
+        for i in range(n):
+            cc = rng.choice(["49", "1", "351", "7"])
+            national = "".join(rng.choice("0123456789") for _ in range(rng.randint(5, 11)))
+            if i % 4 == 0:
+                national = cc + national[:6]          # a national number that itself starts with the country code digits
+            phone = cc + national
+            cfg = Config(phone=phone, cc=cc, mcc=rng.choice(["262", "1", "20"]), mnc=rng.choice(["2", "07", "410"]), sim_mcc=rng.choice(["000", "26"]),
+                         sim_mnc=rng.choice(["000", "1"]), pushname=u"verif \xe9")
+            kind = ("code", "register", "exists")[i % 3]
+            if kind != "code" or i % 2:
+                cfg.id = os.urandom(20)        # a code request with an id first asks whether the account exists
+            del sent[:]
+            try:
+                if kind == "code":
+                    req = WACodeRequest(rng.choice(["sms", "voice"]), cfg)
+                elif kind == "register":
+                    req = WARegRequest(cfg, "%06d" % rng.randint(0, 999999))
+                else:
+                    req = WAExistsRequest(cfg)
+                req.send()
+            except Exception as e:
+                r.violation("request:exception:%s:%s" % (kind, type(e).__name__), "%s request for cc=%s number=%s raised %r" % (kind, cc, national, e), {"kind": kind})
+                continue
+            r.case(("request", kind, i, phone))
+            r.cov["traces_validated_against_impl"] += 1
+            if not sent:
+                r.violation("request:nothing-sent:%s" % kind, "%s request wrote nothing to the connection" % kind, {"kind": kind})
+                continue
+            host, method, path, body, headers = sent[-1]
+            params = list(req.params)
+            problems = []
+            try:
+                q = path.split("?", 1)[1]
+                pairs = [kv.split("=", 1) for kv in q.split("&")]
+                if [k for k, _ in pairs] != ["ENC"]:
+                    problems.append(("query", "the query carries %s, expected the single ENC parameter" % [k for k, _ in pairs]))
+                blob = base64.b64decode(urllib.parse.unquote_to_bytes(pairs[0][1]))
+                ephs.append(bytes(blob[:32]))
+                shared = priv.exchange(X25519PublicKey.from_public_bytes(bytes(blob[:32])))
+                inner = AESGCM(shared).decrypt(b"\x00" * 12, bytes(blob[32:]), b"").decode("ascii")
+            except Exception as e:
+                problems.append(("undecryptable", "what was sent does not decrypt with the private key matching the server key used: %r" % (e,)))
+                inner = None
+            if inner is not None:
+                got = [kv.split("=", 1) for kv in inner.split("&")]
+                if [k for k, _ in got] != [k for k, _ in params]:
+                    problems.append(("order", "decrypted parameter names %s, the request holds %s" % ([k for k, _ in got], [k for k, _ in params])))
+                else:
+                    for (k, enc), (_, v) in zip(got, params):
+                        raw = v if isinstance(v, bytes) else (v if isinstance(v, str) else str(v)).encode("utf-8")
+                        if urllib.parse.unquote_to_bytes(enc) != raw:
+                            problems.append(("value", "parameter %s decodes to %r, the request holds %r" % (k, urllib.parse.unquote_to_bytes(enc)[:40], raw[:40])))
+                            break
+                d = dict(params)
+                if str(d.get("cc")) != cc or str(d.get("in")) != national:
+                    problems.append(("number", "cc / in parameters are %r / %r for cc=%s national number=%s" % (d.get("cc"), d.get("in"), cc, national)))
+                if kind in ("code", "exists"):
+                    exp = eval_term(tables["token"], {"SIGNATURE": sig, "phone": national})
+                    tok = d.get("token")
+                    tok = tok if isinstance(tok, bytes) else str(tok).encode()
+                    if tok != exp:
+                        problems.append(("token", "token parameter %r is not the token of the national number %s (%r)" % (tok, national, exp)))
+            for sg, desc in problems:
+                r.violation("request:%s:%s" % (sg, kind), "%s request for cc=%s number=%s: %s" % (kind, cc, national, desc), {"kind": kind, "cc": cc, "national": national})
+        if len(set(ephs)) != len(ephs):
+            r.violation("fresh:ephemeral-key-reused:requests", "two requests were encrypted under the same ephemeral key", {})
+        r.notes["whole_requests"] = len(ephs)
+    finally:
+        wr.WARequest.ENC_PUBKEY, wr.httplib.HTTPSConnection, wr.httplib.HTTPConnection = saved
+        roots.close()
+
+
 def run():
     r = core.Run("C20", "model_checking")
     thorough = r.tier == "thorough"
@@ -181,6 +295,7 @@ def run():
                 r.violation("token:differs", "getToken(%r) = %r, construction gives %r (call #%d on this environment)" % (ph, got, exp, rep + 1), {"phone": ph})
         if rep == 0:
             r.sample({"phone": phones[3], "token": exp.decode()})
+    request_pipeline(r, rng, tables, sig, thorough)
     # ---- self-test: a trace with a repeated ephemeral key must be rejected by the specification
     bad = [[1, 2, 3, 2, 4]] + traces[:1]
     bf = os.path.join(r.scratch.path, "bad.json")
